@@ -47,6 +47,10 @@ def scripted_programs(bpc):
         # position at EOF on a cluster boundary; grow, then truncate back to the position; write (D31)
         [["open", "t", "/T.BIN", "w"], ["write", "t", "54" * bpc], ["seek", "t", 0, 2], ["truncate", "t", 2 * bpc + 1], ["truncate", "t", bpc],
          ["write", "t", "55" * 20], ["hclose", "t"], ["getsize", "/T.BIN"], ["open", "u", "/T.BIN", "r"], ["read", "u", -1], ["hclose", "u"]],
+        # names whose plain 8.3 alias is already the alias (or the name) of another entry of the directory: the later one needs a numbered alias
+        [["makedir", "/cs"], ["create", "/cs/Readme.txt"], ["create", "/cs/readme.txt"], ["makedir", "/cs/Pictures2023"], ["makedir", "/cs/pictures"],
+         ["create", "/cs/documentation.txt"], ["create", "/cs/document.txt"], ["create", "/cs/DATA.BIN"], ["create", "/cs/data.bin.old"], ["create", "/cs/Data.Bin"],
+         ["listdir", "/cs"], ["remove", "/cs/readme.txt"], ["exists", "/cs/Readme.txt"], ["removedir", "/cs/pictures"], ["isdir", "/cs/Pictures2023"], ["listdir", "/cs"]],
     ]
 
 
